@@ -14,6 +14,7 @@ use lightning_signer::bitcoin::secp256k1::{PublicKey, Secp256k1, SecretKey};
 use lightning_signer::channel::{ChannelId, ChannelSlot};
 use lightning_signer::lightning::types::payment::PaymentHash;
 use lightning_signer::node::Node;
+use lightning_signer::persist::Persist;
 use lightning_signer::signer::derive::KeyDerivationStyle;
 use lightning_signer::util::test_utils::make_test_channel_setup;
 use serde_json::json;
@@ -31,20 +32,50 @@ struct Sys {
     node: Arc<Node>,
     node_id: PublicKey,
     peer: [u8; 33],
+    /// one case in five runs on Testnet (compiled-in checkpoints, 6-block stub horizon) and
+    /// connects a few blocks; the tracker then sits strictly between genesis and the checkpoint
+    testnet: bool,
+    blocks: u32,
 }
 
 impl Sys {
     fn new(case: usize) -> Sys {
-        let policy = World::default_policy();
+        let testnet = case % 5 == 4;
         let mut seed = [0u8; 32];
         seed[0] = (case % 251) as u8;
         seed[1] = 0x0d;
-        let world = World::new(policy, seed, KeyDerivationStyle::Native);
+        let world = if testnet {
+            use lightning_signer::bitcoin::Network;
+            World::new_on(
+                Network::Testnet,
+                lightning_signer::policy::simple_validator::make_default_simple_policy(Network::Testnet),
+                seed,
+                KeyDerivationStyle::Native,
+            )
+        } else {
+            World::new(World::default_policy(), seed, KeyDerivationStyle::Native)
+        };
         let node = world.new_node();
         let node_id = node.get_id();
         let secp = Secp256k1::new();
         let peer = PublicKey::from_secret_key(&secp, &SecretKey::from_slice(&[9u8; 32]).unwrap()).serialize();
-        Sys { world, node, node_id, peer }
+        let mut sys = Sys { world, node, node_id, peer, testnet, blocks: 0 };
+        if testnet {
+            // a fresh tracker (height 0) is moved to the checkpoint by a restart, by design: the
+            // history starts after the first block
+            sys.add_block();
+        }
+        sys
+    }
+    /// connect one empty block the way the AddBlock handler does (tracker, then its store entry)
+    fn add_block(&mut self) -> bool {
+        use lightning_signer::util::test_utils::make_testnet_header;
+        let mut tracker = self.node.get_tracker();
+        let (header, proof) = make_testnet_header(tracker.tip(), tracker.height());
+        let ok = tracker.add_block(header, proof).is_ok();
+        self.world.persister.update_tracker(&self.node_id, &tracker).expect("update_tracker");
+        self.blocks += 1;
+        ok
     }
     fn cid(&self, dbid: u64) -> ChannelId {
         ChannelId::new_from_peer_id_and_oid(&self.peer, dbid)
@@ -100,7 +131,12 @@ fn run(args: &Args) {
             let node = sys.node.clone();
             let cid = sys.cid(dbid);
             let peer = sys.peer;
-            let choice = rng.below(20);
+            let mut choice = rng.below(20);
+            if sys.testnet && (11..=14).contains(&choice) {
+                // regtest addresses do not parse on Testnet: these draws connect a block instead
+                // (at most three: stubs are pruned six blocks after their creation)
+                choice = if sys.blocks < 3 { 100 } else { 10 };
+            }
             let mut restarted = false;
             let (coq, j, res): (String, serde_json::Value, Result<bool, ()>) = match choice {
                 0..=3 => {
@@ -141,6 +177,11 @@ fn run(args: &Args) {
                 7..=9 => {
                     let r = catch_unwind(AssertUnwindSafe(|| node.forget_channel(&cid).is_ok()));
                     (format!("ForgetChannel {}", dbid), json!(["forget_channel", dbid]), r.map_err(|_| ()))
+                }
+                100 => {
+                    // a connected block changes nothing the node model tracks
+                    let ok = sys.add_block();
+                    ("Heartbeat".to_string(), json!(["add_block", sys.blocks]), Ok(ok))
                 }
                 10 => {
                     let r = catch_unwind(AssertUnwindSafe(|| {
